@@ -303,6 +303,57 @@ func ruleTableShape(w *World, r *Report) {
 	r.Rule("C17-P", "Row builder: a loop whose continuation depends only on counter < len(alignments) (padding) is reached only in body mode — in header mode the row contains exactly the cells scanned from the source line, so the header guard compares the real header width.")
 	r.Rule("C17-A", "Row builder: a store into an Alignment-typed field of a cell inside a loop stores either a constant or alignments[counter] for the loop's own counter.")
 	nAppendLoops := 0
+	counters := map[*ssa.Phi]*natLoop{} // column counter of every loop that appends cells
+	counterKeys := map[*ssa.Phi]string{}
+	defer func() {
+		// counter continuity: the number of cells equals the counter only if every appending loop starts counting where
+		// the previous one stopped
+		r.curRule = "C17-R"
+		for c, l := range counters {
+			ckey := counterKeys[c] + ": counter starts at the number of cells appended so far"
+			okC, why := true, ""
+			for pi, pr := range l.header.Preds {
+				if l.body[pr] {
+					continue
+				}
+				var leaves []ssa.Value
+				seenPhi := map[*ssa.Phi]bool{}
+				var walk func(v ssa.Value)
+				walk = func(v ssa.Value) {
+					v = stripConv(v)
+					if p2, isP := v.(*ssa.Phi); isP && counters[p2] == nil && !seenPhi[p2] {
+						seenPhi[p2] = true
+						for _, e := range p2.Edges {
+							walk(e)
+						}
+						return
+					}
+					leaves = append(leaves, v)
+				}
+				walk(c.Edges[pi])
+				for _, leaf := range leaves {
+					if z, isC := constInt(leaf); isC && z == 0 {
+						// zero is right only if no other appending loop can run before this one
+						for c2, l2 := range counters {
+							if c2 != c && l2.header.Dominates(l.header) {
+								okC, why = false, "it restarts at 0 after an earlier loop has appended cells"
+							}
+						}
+						continue
+					}
+					if p2, isP := leaf.(*ssa.Phi); isP && counters[p2] != nil && p2 != c {
+						continue
+					}
+					okC, why = false, fmt.Sprintf("its initial value %s is neither 0 nor the column counter of the preceding cell loop", shortVal(leaf))
+				}
+			}
+			if okC {
+				r.OK(ckey, w.blockPos(l.header), "0 for the first loop, the previous loop's counter otherwise")
+			} else {
+				r.Bad(ckey, w.blockPos(l.header), "the column counter no longer counts the cells in the row: "+why+"; short rows are padded to the wrong width")
+			}
+		}
+	}()
 	for li, l := range loops {
 		hasAppend := false
 		for b := range l.body {
@@ -336,6 +387,8 @@ func ruleTableShape(w *World, r *Report) {
 			continue
 		}
 		nAppendLoops++
+		counters[counter] = l
+		counterKeys[counter] = lkey
 		r.curRule = "C17-R"
 		// padding loop? header condition compares only counter with len(alignments) (possibly after a header-mode test)
 		isPadding := false
